@@ -302,8 +302,13 @@ def XNPV(
     https://support.microsoft.com/en-us/office/
         xnpv-function-1b42bbf6-370f-4532-a0eb-d67c16b664b7
     """
-    values = values.flatten(func_xltypes.Number, None)
-    dates = dates.flatten(func_xltypes.DateTime, None)
+    # Only drop what could not be cast; a cash flow of 0 is a value.
+    # (flatten()'s default filter removes everything falsy.)
+    def _is_value(item):
+        return item is not None
+
+    values = values.flatten(func_xltypes.Number, _is_value)
+    dates = dates.flatten(func_xltypes.DateTime, _is_value)
 
     # TODO: Ignore non numeric cells and boolean cells.
     if len(values) != len(dates):
